@@ -302,7 +302,11 @@ def run_check(pid, tier="quick", seed=0, workers=None, limit=None, verbose=True)
             # replay-twice rule: a fresh process must reproduce the identical observation
             rr = _fresh_process_replay(path)
             same_obs = json.dumps(rr.get("observed"), sort_keys=True, default=str) == json.dumps(json.loads(json.dumps(rp["observed"], default=str)), sort_keys=True, default=str)
-            if rr.get("fails") and same_obs and rr.get("step") == rp["step"]:
+            # a property whose violations are themselves non-deterministic (C10: results depending on recycled memory, hash seeds ...)
+            # declares REPLAY_MATCH = "fails": the fresh process must violate the same clause on the same scenario, the observed digest
+            # may differ
+            loose = getattr(mod, "REPLAY_MATCH", "exact") == "fails" and rr.get("fails") and rr.get("clause", rp["clause"]) == rp["clause"]
+            if rr.get("fails") and ((same_obs and rr.get("step") == rp["step"]) or loose):
                 reported.append((path, v, len(lst)))
             else:
                 harness_nondet.append((path, v, rr))
